@@ -348,6 +348,36 @@ def run(pid, tier, replay=None):
         return rc_
     from checks import bigstore
     bigstore.stage(chk, quick, rng, pid)
+    # ---- "written to the block store and flushed" through the node's own disk interface (DiskInterface.save_block / flush_blocks) on a slow
+    #      disk: when flush_blocks() has returned, a fresh connection reads the blocks back
+    import time as _t
+    import skepticoin.blockstore as bs_
+    import skepticoin.networking.disk_interface as di_
+    w_f, g_f, blocks_f = build(cfg, keys, universes()["clean"], tag=b"dif")
+    run_f = store_drv.StoreRun(w_f, g_f)
+    prev_inst = bs_.DefaultBlockStore.instance
+    try:
+        bs_.DefaultBlockStore.instance = run_f.store
+        o_write = run_f.store.write_blocks_to_disk
+
+        def slow_write(blocks__):
+            _t.sleep(0.25)
+            return o_write(blocks__)
+        run_f.store.write_blocks_to_disk = slow_write
+        dif = di_.DiskInterface()
+        dif.save_block(blocks_f[1])
+        dif.save_block(blocks_f[2])
+        dif.flush_blocks()
+        got = {b_.hash() for b_ in run_f.read_back()}
+        missing = [i_ for i_ in (1, 2) if blocks_f[i_].hash() not in got]
+        chk.case(("disk_interface_flush",), nontrivial=True)
+        if missing:
+            chk.violation("C08:written_block_missing_on_read_back", {"through": "DiskInterface.save_block / flush_blocks on a slow disk, read back when flush_blocks() has returned",
+                                                                     "blocks_missing": len(missing)}, {"clause": "C08:written_block_missing_on_read_back", "how": "disk_interface"})
+        _t.sleep(0.6)
+    finally:
+        bs_.DefaultBlockStore.instance = prev_inst
+        run_f.close()
     from checks import wireforms
     rc_ = wireforms.stage(chk, quick, rng, pid)
     if rc_:
